@@ -886,6 +886,10 @@ func drawScenario(r *eng.Run) scenario {
 // safety net did" (a factor of 750 apart), nothing of it enters the digests.
 func realLoopback(r *eng.Run) {
 	r.SetEntry("Dialer.Dial/default-net-dialer")
+	// This Dial runs outside any bubble: nothing pooled by an earlier bubble
+	// (a channel, a timer) may reach it.
+	eng.FreshPools()
+	defer eng.FreshPools()
 	kind := r.T.Int(sim.LCfg, 3)
 	ln, err := net.Listen("tcp", "127.0.0.1:0")
 	if err != nil {
